@@ -6,7 +6,7 @@ TRUSTED = [
     "axioms: none",
     "coq/Model/Heap.v: hand-enumerated list of secret-holding buffers per code path with the wrapper the source gives them (a model of the discipline, PARTIAL by nature)",
     "harness/src/bin/bpv-alloc.rs: interposing #[global_allocator] built at opt-level 0 that copies every block passed to dealloc while armed; the scan looks for the literal byte "
-    "patterns of the seed, every blinding factor / recovered mask and (at 64 bits) every value",
+    "patterns of the seed, every blinding factor / recovered mask, (at 64 bits) every value and (from 16 bits) the a_L / a_R bit-decomposition images of every value",
     "what zeroize's volatile writes, the compiler and the allocator do is runtime behaviour; optimised builds elide some temporaries and are not what is observed",
 ]
 PHASES = ["prove", "verify_recover", "drop_masks", "drop_witness", "drop_opening", "drop_mask", "drop_statement", "drop_opening_spare", "drop_mask_spare", "prove_drop_witness_spare", "drop_witness_vec_spare"]
@@ -44,7 +44,9 @@ def run(run: Run):
     for line, rec in outs:
         b, m, T, seeded = rec["bits"], rec["m"], rec["T"], rec["seeded"]
         rp = {"kind": "alloc", "case": line.strip(), "meaning": "bits m T seeded rng-seed (stdin line of bpv-alloc)"}
-        for ph in PHASES:
+        if "prove_fails" in rec and rec.get("prove_fails_is_err") is not True:
+            run.violation("generator: the prove with value < promise did not fail", rp)
+        for ph in PHASES + (["prove_fails"] if "prove_fails" in rec else []):
             r = rec[ph]
             dirty = r["dirty"]
             run.count(["c20", b, m, T, seeded, ph, len(dirty) > 0], {"bits": b, "m": m, "T": T, "seeded": seeded, "phase": ph, "freed_blocks": r["freed_blocks"], "dirty": len(dirty)})
@@ -64,7 +66,7 @@ def run(run: Run):
             run.violation("generator: recovery did not return a mask", rp)
     return run.finish(
         "proof",
-        "prove, recovering verify, drop of the recovered masks and drops of witness / opening / mask / statement (also when built from vectors whose spare capacity still holds secrets after truncate / drain) for a spread of (bits, aggregation, extension degree, seeded) configurations in a "
+        "prove, recovering verify, drop of the recovered masks and drops of witness / opening / mask / statement (also when built from vectors whose spare capacity still holds secrets after truncate / drain) and a prove that fails half-way through an aggregated witness, for a spread of (bits, aggregation, extension degree, seeded) configurations in a "
         "binary built at opt-level 0 with an interposing allocator; every freed block is scanned for the seed, every blinding factor / mask and (at 64 bits) every value; the multiset of dirty frees "
         "must equal the model's (empty); distinct by (bits, m, T, seeded, phase, dirty?)",
         ["derived temporaries (bit vectors, nonces) are covered by the discipline model only; a_lo_offset / a_hi_offset are plain in the source and not claimed (DESIGN.md section 5/C20)"],
